@@ -152,6 +152,7 @@ TrDisconnect ==
     /\ Is("disconnect") /\ Ev.slot \in Slots
     /\ Disconnect(Ev.slot)
     /\ Ev.q[Ev.slot] <= Ev.qbefore
+    /\ ("closed_ok" \in DOMAIN Ev) => Ev.closed_ok        \* Close() itself returned (it must, whatever the hub is doing)
     /\ room' = [room EXCEPT ![Ev.slot] = LeftBehind(Ev.slot)]
     (* KeyAbort bookkeeping: broadcasts still under way will find this listener's channel closed *)
     /\ risk' = IF Busy THEN risk \cup {e \in infl : Relevant(lst[Ev.slot].kind, lst[Ev.slot].filter, e)} ELSE risk
